@@ -159,6 +159,8 @@ def check(model, opts, feeds_list):
 def _msg_class(msg):
     import re
 
+    if "Unbound name" in msg:
+        return "Unbound name"
     m = re.sub(r"['\"].*?['\"]", "_", msg)
     m = re.sub(r"\d+", "N", m)
     return m[:50]
@@ -245,4 +247,75 @@ def replay(case):
     return verdicts
 
 
-from vf.known_regions import REGIONS  # noqa: E402
+def _m(case):
+    return optcommon.model_from_json(case["model"])
+
+
+def _all_names(g, out):
+    out += [i.name for i in g.input] + [i.name for i in g.initializer] + [o.name for o in g.output]
+    for n in g.node:
+        out += [o for o in n.output if o]
+        for a in n.attribute:
+            if a.type == onnx.AttributeProto.GRAPH:
+                _all_names(a.g, out)
+    return out
+
+
+def _collide(case):
+    import re
+
+    names = set(_all_names(_m(case).graph, []))
+    seen = {}
+    for n in names:
+        k = re.sub(r"\W", "_", n)
+        if k in seen and seen[k] != n:
+            return True
+        seen[k] = n
+    return False
+
+
+def _nodes(g):
+    for n in g.node:
+        yield n
+        for a in n.attribute:
+            if a.type == onnx.AttributeProto.GRAPH:
+                yield from _nodes(a.g)
+
+
+def _dead_if(case):
+    m = _m(case)
+    used = set(o.name for o in m.graph.output)
+    for n in _nodes(m.graph):
+        used.update(n.input)
+    return any(n.op_type == "If" and not any(o in used for o in n.output) for n in _nodes(m.graph))
+
+
+def _empty_1d_const(case):
+    from onnx import numpy_helper
+
+    m = _m(case)
+    for i in m.graph.initializer:
+        if list(i.dims) == [0]:
+            return True
+    for n in _nodes(m.graph):
+        if n.op_type == "Constant":
+            for a in n.attribute:
+                if a.name == "value" and list(a.t.dims) == [0]:
+                    return True
+                if a.name in ("value_ints", "value_floats") and len(a.ints) + len(a.floats) == 0:
+                    return True
+    return False
+
+
+REGIONS = {
+    # two value names that become the same Python identifier after clean-up ('a.b' / 'a_b'): wrong computation or duplicate argument
+    "names_collide_after_cleanup": _collide,
+    "skip_initializers_on_model_without_initializers": lambda c: bool(c["opts"].get("skip_initializers")) and not _m(c).graph.initializer,
+    "skip_initializers_random_weights_unsupported_dtype": lambda c: bool(c["opts"].get("skip_initializers")) and any(i.data_type != 1 for i in _m(c).graph.initializer),
+    "rename_option_loses_graph_inputs": lambda c: bool(c["opts"].get("rename")),
+    "inline_const_drops_still_referenced_definition": lambda c: bool(c["opts"].get("inline_const")),
+    "inline_const_empty_list": lambda c: bool(c["opts"].get("inline_const")) and _empty_1d_const(c),
+    "if_with_unused_outputs": _dead_if,
+    "while_style_loop": lambda c: any(n.op_type == "Loop" and (len(n.input) == 0 or n.input[0] == "") for n in _nodes(_m(c).graph)),
+    "loop_with_condition_break_first": lambda c: any(n.op_type == "Loop" for n in _nodes(_m(c).graph)),
+}
